@@ -112,6 +112,13 @@ class NTClass(Value):
         return 'namedtuple %s%r' % (self.name, tuple(self.fields))
 
 
+class PropertyV(Value):
+    """property(fget, fset) made by a call (a class attribute built by a helper instead of the decorator)"""
+
+    def __init__(self, fget, fset):
+        self.fget, self.fset = fget, fset
+
+
 class PartialV(Value):
     """functools.partial(func, *args, **kwargs)"""
 
@@ -327,7 +334,8 @@ class PathResult:
 BUILTIN_NAMES = {'isinstance', 'len', 'range', 'zip', 'enumerate', 'tuple', 'list', 'float', 'int',
                  'max', 'min', 'abs', 'sum', 'hasattr', 'callable', 'getattr', 'round', 'bool', 'str',
                  'reversed', 'sorted', 'print', 'divmod', 'set', 'dict', 'slice', 'type', 'map', 'any', 'all',
-                 'complex', 'super', 'iter', 'next', 'pow', 'id', 'repr'}
+                 'complex', 'super', 'iter', 'next', 'pow', 'id', 'repr', 'setattr', 'delattr', 'filter', 'frozenset', 'issubclass',
+                 'format', 'vars', 'object', 'bytes', 'bytearray', 'ord', 'chr', 'hash', 'open', 'memoryview', 'property'}
 EXC_NAMES = {'KeyError', 'ValueError', 'TypeError', 'Exception', 'AttributeError', 'IndexError',
              'NotImplementedError', 'ZeroDivisionError', 'RuntimeError', 'ImportError', 'StopIteration',
              'FileNotFoundError', 'OSError', 'UserWarning', 'DeprecationWarning', 'Warning'}
@@ -667,6 +675,10 @@ class Interp:
             r = hook(f, args, kwargs, node)
             if r is not None:
                 return r
+        if isinstance(f, Unknown) and f.why.startswith('unresolved name '):
+            # a call of something the analysis cannot even name may do anything to its arguments: nothing after it is believed
+            raise AnalysisError('%s is called (line %d of %s) and is not resolved: the effects of that call are not followed'
+                                % (f.why[len('unresolved name '):], getattr(node, 'lineno', 0), self.callstack[-1].qual if self.callstack else '?'))
         return Unknown('call of %r' % (f,))
 
     _OPERATOR = {'add': ast.Add, 'sub': ast.Sub, 'mul': ast.Mult, 'truediv': ast.Div, 'floordiv': ast.FloorDiv, 'mod': ast.Mod, 'pow': ast.Pow,
@@ -1063,6 +1075,13 @@ class Interp:
             return Unknown('callable')
         if name == 'getattr' and len(args) >= 2 and isinstance(args[1], Const):
             return self.getattr(args[0], args[1].v, node, frame)
+        if name == 'setattr' and len(args) == 3 and isinstance(args[1], Const) and isinstance(args[1].v, str):
+            self.setattr(args[0], args[1].v, args[2], node, frame)
+            return Const(None)
+        if name == 'property' and len(args) <= 4:
+            g = kwargs.get('fget', args[0] if args else Const(None))
+            st_ = kwargs.get('fset', args[1] if len(args) > 1 else Const(None))
+            return PropertyV(g, st_)
         if name == 'dict' and not args:
             d = DictV()
             for k, v in kwargs.items():
@@ -1091,6 +1110,17 @@ class Interp:
             return Slice(a[0], a[1], a[2])
         if name == 'print':
             return Const(None)
+        if name == 'filter' and len(args) == 2:
+            its = self.iterate(args[1], node)
+            if its is not None:
+                keep = []
+                for x in its:
+                    t = self.truth(x if (isinstance(args[0], Const) and args[0].v is None) else self.call_value(args[0], [x], {}, node, frame))
+                    if t is None:
+                        return Unknown('filter with a test that is not decided')
+                    if t:
+                        keep.append(x)
+                return Tup(keep)
         if name == 'map' and len(args) >= 2:
             its = [self.iterate(a, node) for a in args[1:]]
             if all(i is not None for i in its):
@@ -1372,15 +1402,7 @@ class Interp:
                 for t, x in zip(target.elts, items):
                     self.assign(t, x, frame, node)
         elif isinstance(target, ast.Attribute):
-            o = self.ev(target.value, frame)
-            if isinstance(o, Obj):
-                setter = self.db.method(o.ci, target.attr + '.setter')
-                if setter is not None:
-                    self.call_funcinfo(setter, [v], {}, o, node)
-                else:
-                    o.attrs[target.attr] = v
-            else:
-                self.dom.store_attr(o, target.attr, v, node)
+            self.setattr(self.ev(target.value, frame), target.attr, v, node, frame)
         elif isinstance(target, ast.Subscript):
             o = self.ev(target.value, frame)
             idx = self.ev_index(target.slice, frame)
@@ -1394,6 +1416,23 @@ class Interp:
                 self.dom.store_subscript(o, idx, v, node)
         elif isinstance(target, ast.Starred):
             self.assign(target.value, v, frame, node)
+
+    def setattr(self, o, attr, v, node, frame):
+        if isinstance(o, Obj):
+            setter = self.db.method(o.ci, attr + '.setter')
+            if setter is not None:
+                self.call_funcinfo(setter, [v], {}, o, node)
+                return
+            if self.db.method(o.ci, attr) is None:
+                cv = self._class_attr(o.ci, attr)
+                if isinstance(cv, PropertyV):
+                    if isinstance(cv.fset, Const) and cv.fset.v is None:
+                        raise AbsRaise('AttributeError', node)
+                    self.call_value(cv.fset, [o, v], {}, node, frame)
+                    return
+            o.attrs[attr] = v
+        else:
+            self.dom.store_attr(o, attr, v, node)
 
     # -- expressions -------------------------------------------------------
     def branch(self, test, frame):
@@ -1584,6 +1623,8 @@ class Interp:
             if r is not None:
                 return r
             cv = self._class_attr(o.ci, name)
+            if isinstance(cv, PropertyV):
+                return self.call_value(cv.fget, [o], {}, node, frame)
             if cv is not None:
                 return cv
             return Unknown('attr %s of %s' % (name, o.ci.name))
